@@ -374,7 +374,11 @@ class Engine:
         """
         # TODO: Maybe a property setter like input_values.
         values = tuple(output_variable.value for output_variable in self.output_variables)
-        result = np.column_stack(values) if values else np.array(values)
+        if not values:
+            return np.array(values)
+        # in batch mode a disabled variable, or one whose activations do not depend on the inputs, holds a single
+        # value next to the vectors of the other variables: repeat it for every row
+        result = np.column_stack(np.broadcast_arrays(*(np.atleast_1d(value) for value in values)))
         return result
 
     @property
